@@ -103,6 +103,16 @@ Definition istype_verdict (X : xprogram) (v : value) (y : nat) : bool :=
 Definition canon_of (X : xprogram) (t : nat) : nat :=
   match nth_error (x_canon X) t with Some c => c | None => t end.
 
+(* does the type table hold a `Type::Tuple(t)` entry (compatibility.rs:192 TypeIndex.tuple_to_type) *)
+Definition has_tuple_entry (X : xprogram) (t : nat) : bool :=
+  existsb (fun ty => match ty with TTuple u => Nat.eqb u t | _ => false end) (x_types X).
+Definition entry_mask (X : xprogram) : list bool :=
+  map (has_tuple_entry X) (seq 0 (length (x_tuples X))).
+
+(* the tuple value about to be tested by an IsType has a type entry (C08's has_type_entry) *)
+Definition tag_typed (X : xprogram) (v : value) : Prop :=
+  match v with VTuple t _ => nthb (entry_mask X) t = true | _ => True end.
+
 Section EQUAL.
 (* `canon`: the canonical-tuple lookup; `bin_eq h1 h2`: do the two binaries hold the same bytes
    (executor.rs:2719-2760; binaries are opaque handles in vm/Bytecode.v, their storage is C06/C13) *)
@@ -168,6 +178,20 @@ Fixpoint xrun (X : xprogram) (bin_eq : nat -> nat -> bool) (s : state) (xs : lis
   match xs with
   | [] => Next s
   | x :: t => match xstep X bin_eq s x with Next s' => xrun X bin_eq s' t | r => r end
+  end.
+
+(* along an execution, every tuple value tested by an IsType has a type entry in X *)
+Definition tested_typed (X : xprogram) (s : state) : Prop :=
+  match top_instr (project X) s, stack s with
+  | Some (IIsType _), v :: _ => tag_typed X v
+  | _, _ => True
+  end.
+
+Fixpoint typed_run (X : xprogram) (bin_eq : nat -> nat -> bool) (s : state) (xs : list ext) : Prop :=
+  match xs with
+  | [] => True
+  | x :: t => tested_typed X s /\
+              match xstep X bin_eq s x with Next s' => typed_run X bin_eq s' t | _ => True end
   end.
 
 (* vm/WfRun.v's `run` (same definition; restated here so that this file does not depend on the
@@ -358,9 +382,19 @@ Definition chk_res (r r' : nat) : bool :=
 Definition commute (m : fmap) (l l' : list bool) : bool :=
   forall_map m (fun i j => Bool.eqb (nthb l i) (nthb l' j)).
 
+(* ... for the ids selected by `mask` *)
+Definition commute_on (mask : list bool) (m : fmap) (l l' : list bool) : bool :=
+  forall_map m (fun i j => if nthb mask i then Bool.eqb (nthb l i) (nthb l' j) else true).
+
+(* Tuple tags are compared only for tuple ids that HAVE a `Type::Tuple` entry in the source program.
+   A tuple id without one is accepted by no pattern there (compatibility.rs:293: `tuple_to_type`
+   has no slot for it), whereas a program merged earlier may have registered that entry (typically
+   `Type::Tuple(OK)`), so the target row may contain the tag. No value the compiler lets reach a
+   run-time test carries such an id (it registers the static type of every tested value: C08's
+   has_type_entry obligation) — the simulation theorem carries exactly that hypothesis. *)
 Definition rows_commute (w w' : row) : bool :=
   Bool.eqb (w_int w) (w_int w') && Bool.eqb (w_bin w) (w_bin w') && Bool.eqb (w_ref w) (w_ref w') &&
-  commute (r_t rho) (w_tuples w) (w_tuples w') && commute (r_f rho) (w_funs w) (w_funs w') &&
+  commute_on (entry_mask X) (r_t rho) (w_tuples w) (w_tuples w') && commute (r_f rho) (w_funs w) (w_funs w') &&
   commute (r_b rho) (w_builtins w) (w_builtins w') && commute (r_f rho) (w_procs w) (w_procs w') &&
   commute (r_r rho) (w_res w) (w_res w').
 
